@@ -19,6 +19,7 @@ RULE = (
     "1+(n-1)), 2- and 3-way merges; long_streams: streams of 7e4-1.4e5 (thorough 4e5) samples merged near the middle or chunked (counts whose products exceed int32). Oracle: count/min/max exactly equal the whole-stream values; mean/var/std/skew/"
     "kurtosis within 10*eps32*(sqrt(n)+4)*scale of two-pass float64 (scale: max|x| for mean; var+|mean|*std for var; "
     "(1+|mean|/std)*(1+|ref|) for skew/kurtosis); constant channel -> var=0 and skew=0 exactly; everything finite. "
+    "On half of the cases every statistic is read between chunks (reading must not disturb the accumulation; the values read mid-way are not judged). "
     "Non-trivial = >=2 chunks or a merge on non-constant data; distinct by canonical case JSON."
 )
 ASSUMPTIONS = [
@@ -113,13 +114,19 @@ def compare(st_, x, what, ctxt, full):
     return bool(np.any(~const))
 
 
-def accumulate(x, bounds, mode):
+def accumulate(x, bounds, mode, observe=None):
+    """observe=(ctxt, full): every statistic is read after every chunk (a progress display does that); reading must
+    not disturb what follows.  The values read mid-way are not judged: the accumulator normalises by the stream
+    length declared at construction, so they only describe the data once the stream is complete."""
     from sigpyproc.core.stats import ChannelStats
 
     n, nch = x.shape
     st_ = ChannelStats(nch, bounds[-1] - bounds[0])
     for a, c in zip(bounds[:-1], bounds[1:]):
         st_.push_data(np.ascontiguousarray(x[a:c]).ravel(), a - bounds[0], mode=mode)
+        if observe is not None and c != bounds[-1]:
+            for name in ("mean", "var", "std", "maxima", "minima") + (("skew", "kurtosis") if observe[1] else ()):
+                np.asarray(getattr(st_, name))
     return st_
 
 
@@ -133,7 +140,9 @@ def check(case, ctx):
     nontrivial = False
     if "cuts" in case:
         b = [0] + list(case["cuts"]) + [n]
-        st_ = accumulate(x, b, mode)
+        st_ = accumulate(x, b, mode, (ctxt + f" cuts={case['cuts']}", full) if case.get("observe") else None)
+        if case.get("observe"):
+            labels.append("statistics_read_between_chunks")
         nonconst = compare(st_, x, "chunked", f"{ctxt} cuts={case['cuts']}", full)
         labels.append(f"chunks{min(len(b) - 1, 9)}")
         if len(b) - 1 == n:
@@ -144,7 +153,7 @@ def check(case, ctx):
         parts = []
         for a, c in zip(sp[:-1], sp[1:]):
             inner = [a] + [k for k in case.get("cuts_in_parts", []) if a < k < c] + [c]
-            parts.append(accumulate(x, inner, mode))
+            parts.append(accumulate(x, inner, mode, (ctxt + f" part [{a},{c})", full) if case.get("observe") else None))
         try:
             if len(parts) == 2:
                 tot = parts[0] + parts[1]
@@ -175,7 +184,7 @@ def enum_compositions(tier):
             for n in range(2, nmax + 1):
                 for mask in range(1 << (n - 1)):
                     cuts = [i + 1 for i in range(n - 1) if mask >> i & 1]
-                    yield {"family": fam, "n": n, "nch": 2, "mode": mode, "seed": 100 + n, "cuts": cuts}
+                    yield {"family": fam, "n": n, "nch": 2, "mode": mode, "seed": 100 + n, "cuts": cuts, "observe": bool((mask + n) % 2)}
 
 
 def enum_merges(tier):
@@ -192,7 +201,7 @@ def strat_random(draw, tier):
     n = draw(st.integers(2, 200))
     kind = draw(st.sampled_from(["chunks", "chunks", "merge2", "merge3"]))
     case = {"family": draw(st.sampled_from(FAMILIES)), "n": n, "nch": draw(st.integers(1, 6)),
-            "mode": draw(st.sampled_from(["basic", "full"])), "seed": draw(st.integers(0, 2**31 - 1))}
+            "mode": draw(st.sampled_from(["basic", "full"])), "seed": draw(st.integers(0, 2**31 - 1)), "observe": draw(st.booleans())}
     if kind == "chunks":
         shape = draw(st.sampled_from(["random", "random", "ones", "1+rest", "rest+1"]))
         if shape == "ones":
